@@ -267,6 +267,17 @@ theorem EInv.step {c : Cfg} {s s' : State} {l : Lbl} (he : EInv s) (h : step c s
       by_cases hii : i = i0
       · subst hii; simp at hi
       · rw [upd_other _ _ hii] at hi; exact he.recI m cnt hs i p a hi
+  | start =>
+    simp only [GC.step, stepWith] at h
+    split at h
+    · injection h with h; subst h
+      exact ⟨he.bound, he.pinLe, he.entLe, he.callLe, he.cellLe, by simp, by simp, by simp, he.logOk⟩
+    · injection h with h; subst h; exact he
+  | stopJoin =>
+    simp only [GC.step, stepWith] at h
+    split at h <;> try contradiction
+    injection h with h; subst h
+    exact ⟨he.bound, he.pinLe, he.entLe, he.callLe, he.cellLe, he.taskLe, by simp, by simp, he.logOk⟩
   | consumeBegin =>
     simp only [GC.step, stepWith] at h
     split at h <;> try contradiction
